@@ -68,6 +68,8 @@ type Env struct {
 	opSeq int // global invoke/return sequence
 
 	baseCat *lungo.Catalog // catalog loaded when the current engine was opened
+	attempt *lungo.Catalog // catalog handed to the store by the commit in progress
+	diskFaultHit map[int]bool
 	maxTS   primitive.Timestamp
 	tsEpoch int
 
@@ -171,6 +173,7 @@ func (s *SimStore) Store(c *lungo.Catalog) error {
 		e.logf("store call %d: injected failure before persisting", n)
 		return ErrInjected
 	}
+	e.attempt = c
 	err := s.inner.Store(c)
 	if err != nil {
 		e.logf("store call %d: inner store failed: %v", n, err)
@@ -224,9 +227,14 @@ func (e *Env) setupDisk() {
 			dec.Latency = time.Duration(e.plan.Cfg.DiskLatMs) * time.Millisecond
 		}
 		f, ok := e.diskFaults[op.N]
-		if !ok {
+		if !ok || op.Kind == "readfile" {
+			// faults while loading are not part of any commit: a failed or killed load is just another restart
 			return dec
 		}
+		if e.diskFaultHit == nil {
+			e.diskFaultHit = map[int]bool{}
+		}
+		e.diskFaultHit[op.N] = true
 		switch f.Kind {
 		case "disk-err":
 			dec.Action = simos.Fail
